@@ -280,3 +280,53 @@ func (m *Model) SccOrder() ([][]string, bool) {
 	}
 	return sccs, strat // Tarjan emits SCCs in reverse topological order = deps first
 }
+
+// RecursiveConstructs counts the recursive constructs (a relation admitting usersets of itself, a
+// tuple-to-userset leading back to the same relation) reachable from (typ, rel) in the relation
+// dependency graph. Used only to classify deviations.
+func (m *Model) RecursiveConstructs(typ, rel string) int {
+	seen := map[string]bool{}
+	n := 0
+	var visit func(t, r string)
+	visit = func(t, r string) {
+		k := t + "#" + r
+		d := m.Types[t][r]
+		if seen[k] || d == nil {
+			return
+		}
+		seen[k] = true
+		for _, x := range d.Restr {
+			if x.Type == t && x.Rel == r {
+				n++
+			}
+		}
+		var walk func(e *Expr)
+		walk = func(e *Expr) {
+			if e == nil {
+				return
+			}
+			if e.K == KTTU && e.Rel == r {
+				if ts := m.Types[t][e.Tupleset]; ts != nil {
+					for _, x := range ts.Restr {
+						if x.Type == t {
+							n++
+							break
+						}
+					}
+				}
+			}
+			walk(e.A)
+			walk(e.B)
+		}
+		walk(d.Rewrite)
+		for _, dp := range m.deps(t, r) {
+			for i := 0; i < len(dp.to); i++ {
+				if dp.to[i] == '#' {
+					visit(dp.to[:i], dp.to[i+1:])
+				}
+			}
+		}
+	}
+	visit(typ, rel)
+	return n
+}
